@@ -440,6 +440,26 @@ pub fn gen_session(seed: u64, run: u64, thorough: bool) -> Session {
     // One session in three is not polite: the client does not wait for the server between
     // messages (probes and the final questions still wait for quiescence), so the invalid
     // messages meet requests and diagnostics in flight.
+    // now and then the editor spells the URI of a document another way
+    if rng.chance(1, 4) {
+        for p in ops.iter_mut() {
+            let swap = |u: &mut String, rng: &mut Rng| {
+                if all_uris.contains(u) && rng.chance(1, 4) {
+                    *u = alt_spelling(u);
+                }
+            };
+            match &mut p.op {
+                Op::Open { uri, .. } | Op::Change { uri, .. } | Op::Close { uri } | Op::Save { uri } => swap(uri, &mut rng),
+                Op::Request { uri, id, .. } if *id < 9000 => swap(uri, &mut rng),
+                Op::Watched { changes } => {
+                    for (u, _) in changes.iter_mut() {
+                        swap(u, &mut rng);
+                    }
+                }
+                _ => {}
+            }
+        }
+    }
     let sequential = !rng.chance(1, 3);
     Session {
         property: "C15".into(),
@@ -473,6 +493,42 @@ pub struct Stats {
     pub result_responses: u64,
     pub nontrivial: bool,
     pub kind_key: String,
+}
+
+/// `file:///a/%62.gleam` and `file:///a/b.gleam` name the same file: percent-escapes of
+/// characters that need none are undone (what `Url::to_file_path` does on the server's side).
+pub fn canon(uri: &str) -> String {
+    if !uri.starts_with("file:///") || !uri.contains('%') {
+        return uri.to_string();
+    }
+    let b = uri.as_bytes();
+    let mut out: Vec<u8> = Vec::with_capacity(b.len());
+    let mut i = 0;
+    while i < b.len() {
+        if b[i] == b'%' && i + 2 < b.len() {
+            let hex = std::str::from_utf8(&b[i + 1..i + 3]).ok().and_then(|h| u8::from_str_radix(h, 16).ok());
+            if let Some(c) = hex {
+                if c.is_ascii_alphanumeric() || matches!(c, b'-' | b'.' | b'_' | b'~') {
+                    out.push(c);
+                    i += 3;
+                    continue;
+                }
+            }
+        }
+        out.push(b[i]);
+        i += 1;
+    }
+    String::from_utf8(out).unwrap_or_else(|_| uri.to_string())
+}
+
+/// Another legal spelling of the same file URI: the first letter of the file name escaped.
+fn alt_spelling(uri: &str) -> String {
+    match uri.rfind('/') {
+        Some(i) if uri.starts_with("file:///") && i + 1 < uri.len() && uri.as_bytes()[i + 1].is_ascii_alphabetic() => {
+            format!("{}%{:02X}{}", &uri[..=i], uri.as_bytes()[i + 1], &uri[i + 2..])
+        }
+        _ => uri.to_string(),
+    }
 }
 
 /// Legal results of one content change on `text` (`None` = document forgotten).
@@ -542,8 +598,21 @@ fn classify_uri(uri: &str) -> &'static str {
 /// Kinds of an operation as the checker sees it (independent of the generator's tags, which go
 /// stale when a replay is shrunk).
 fn op_kinds(op: &Op, states: &BTreeMap<String, BTreeSet<Option<String>>>) -> Vec<String> {
+    let mut v = op_kinds_inner(op, states);
+    let alt = match op {
+        Op::Open { uri, .. } | Op::Change { uri, .. } | Op::Close { uri } | Op::Save { uri } | Op::Request { uri, .. } => canon(uri) != *uri,
+        Op::Watched { changes } => changes.iter().any(|(u, _)| canon(u) != *u),
+        _ => false,
+    };
+    if alt {
+        v.push("uri.alternative_spelling".into());
+    }
+    v
+}
+
+fn op_kinds_inner(op: &Op, states: &BTreeMap<String, BTreeSet<Option<String>>>) -> Vec<String> {
     let known = |uri: &str| -> Option<Option<String>> {
-        let st = states.get(uri)?;
+        let st = states.get(&canon(uri))?;
         if st.len() == 1 {
             st.iter().next().cloned()
         } else {
@@ -553,7 +622,7 @@ fn op_kinds(op: &Op, states: &BTreeMap<String, BTreeSet<Option<String>>>) -> Vec
     match op {
         Op::Open { uri, .. } => {
             let mut v = vec![format!("didOpen.uri_{}", classify_uri(uri))];
-            if states.contains_key(uri) {
+            if states.contains_key(&canon(uri)) {
                 v.push("didOpen.again".into());
             }
             v
@@ -673,6 +742,9 @@ pub fn check(s: &Session, h: &History, stats: &mut Stats) -> Option<Violation> {
     let mut last_kinds: BTreeMap<String, Vec<String>> = BTreeMap::new();
     let mut disk_touched = false;
     let mut disk_kinds: Vec<String> = Vec::new();
+    let mut open_now: BTreeSet<String> = BTreeSet::new();
+    let mut alt_event: BTreeSet<String> = BTreeSet::new();
+    let mut open_spellings: BTreeMap<String, BTreeSet<String>> = BTreeMap::new();
     for (i, p) in s.ops.iter().enumerate() {
         let kinds = op_kinds(&p.op, &states);
         if died_at == Some(i) {
@@ -699,14 +771,27 @@ pub fn check(s: &Session, h: &History, stats: &mut Stats) -> Option<Violation> {
                 // watched-file events legitimately reload unopened files from disk
                 disk_touched = true;
                 disk_kinds.extend(kinds.iter().cloned());
+                if let Op::Watched { changes } = &p.op {
+                    for (u, _) in changes {
+                        let c = canon(u);
+                        let known_spelling = open_spellings.get(&c).map_or(true, |sp| sp.is_empty() || (sp.len() == 1 && sp.contains(u)));
+                        if !known_spelling {
+                            alt_event.insert(c);
+                        }
+                    }
+                }
             }
             Op::Open { uri, text } => {
+                open_spellings.entry(canon(uri)).or_default().insert(uri.clone());
+                let uri = &canon(uri);
+                open_now.insert(uri.clone());
                 let mut st = BTreeSet::new();
                 st.insert(Some(text.replace('\r', "")));
                 states.insert(uri.clone(), st);
                 last_kinds.insert(uri.clone(), kinds);
             }
             Op::Change { uri, edits } => {
+                let uri = &canon(uri);
                 let mut cur = states.get(uri).cloned().unwrap_or_else(|| [None].into_iter().collect());
                 for e in edits {
                     let mut next: BTreeSet<Option<String>> = BTreeSet::new();
@@ -723,10 +808,30 @@ pub fn check(s: &Session, h: &History, stats: &mut Stats) -> Option<Violation> {
                 states.insert(uri.clone(), cur);
                 last_kinds.insert(uri.clone(), kinds);
             }
+            Op::Close { uri } => {
+                let c = canon(uri);
+                if let Some(sp) = open_spellings.get_mut(&c) {
+                    sp.remove(uri);
+                    if sp.is_empty() {
+                        open_now.remove(&c);
+                    } else {
+                        // closed under one spelling, still open under another: the pinned code
+                        // keeps one entry per spelling, nothing in the statement covers this
+                        alt_event.insert(c);
+                    }
+                }
+            }
             Op::ProbeText { uri } => {
+                let uri = &canon(uri);
                 let Some(got) = probe_results.get(&i) else { continue };
                 let Some(legal) = states.get(uri) else { continue };
-                if disk_touched && !uri.contains("nonexistent") {
+                // Disk activity may legitimately change what the server holds for a document the
+                // client does NOT maintain (closed, or forgotten by the server), and a file event
+                // under another spelling of an open document's URI is not recognised as "maintained
+                // by the client" by the pinned code either (no property speaks about that). A
+                // document the client has open under the spelling the events used stays checked.
+                let maintained = open_now.contains(uri) && !legal.contains(&None) && !alt_event.contains(uri);
+                if disk_touched && !uri.contains("nonexistent") && !maintained {
                     // a reload from disk may have replaced the text of a document the client
                     // closed; pin the state to what is there and go on
                     if !legal.contains(got) {
